@@ -182,6 +182,7 @@ Proof.
         unfold MG. now rewrite skipn_map. }
       assert (Hrem0 : ids = [] -> lst = o0 /\ MG = []).
       { intros E. rewrite E in ES. simpl in ES. inversion ES; subst. split; auto. unfold MG, G. now rewrite E. }
+      assert (Dids : ids = [] \/ ids <> []) by (destruct ids; [left; reflexivity|right; discriminate]).
       destruct room' as [|room'].
       * (* page filled inside this bucket *)
         simpl. assert (Hlen : (room <= length MG)%nat) by nlia.
@@ -190,9 +191,9 @@ Proof.
         assert (Ef : filter (fun kv => c <=? fst kv) rest = rest).
         { apply filter_all. intros kv Hkv. apply N.leb_le. apply Hgt in Hkv. nlia. }
         rewrite Ef. fold (X rest c lst). rewrite skipn_app_le by auto. f_equal.
-        destruct ids as [|i0 ir] eqn:Ei.
-        -- destruct (Hrem0 eq_refl) as [_ E]. rewrite E in *. simpl in Hlen. nlia.
-        -- apply Hrem; auto. congruence.
+        destruct Dids as [Ei|Ei].
+        -- destruct (Hrem0 Ei) as [_ E]. rewrite E in Hlen. simpl in Hlen. nlia.
+        -- apply Hrem; auto.
       * (* bucket exhausted, go on with the next one *)
         assert (Hlen : (length MG < room)%nat) by nlia.
         specialize (IH c SSr WFr POSr GEr (S room') lst (acc ++ firstn room MG)). cbv zeta in IH.
@@ -205,9 +206,10 @@ Proof.
            rewrite <- I2 by nlia.
            destruct I3 as [[Er Ecur]|Hin].
            ++ subst rest. inversion Ecur; subst. simpl. rewrite N.leb_refl. unfold X. simpl. rewrite app_nil_r.
-              destruct ids as [|i0 ir] eqn:Ei.
-              ** destruct (Hrem0 eq_refl) as [El E]. subst lst. unfold o0. rewrite bitems_self. etransitivity; [symmetry; exact EG|]. first [exact E | reflexivity].
-              ** rewrite Hrem; auto; [|congruence]. apply skipn_all2. nlia.
+              destruct Dids as [Ei|Ei].
+              ** destruct (Hrem0 Ei) as [El E]. subst lst. unfold o0. rewrite bitems_self.
+                 etransitivity; [symmetry; exact EG|exact E].
+              ** rewrite Hrem; auto. apply skipn_all2. nlia.
            ++ now rewrite Hkeep.
         -- destruct I3 as [[Er Ecur]|Hin]; [inversion Ecur; subst; right; now left|right; now right].
 Qed.
